@@ -22,7 +22,7 @@ add('C01','unquote-suffix',SG,'regexp.QuoteMeta(seg.Suffix)','seg.Suffix','viola
 add('C01','lookup-constant-method',TR,"	if h, exists := node.handlers[method]; exists && method != methodNotAllowed {","	if h, exists := node.handlers[http.MethodGet]; exists && method != methodNotAllowed {",'violation:C01.R4')
 add('C01','drop-size-test',ND,"	if len(ctx.Path) == 0 && n.size() > 0 {","	if len(ctx.Path) == 0 {",'violation:C01.R4')
 add('C01','405-of-root',TR,"	return node, node.handlers[methodNotAllowed], false","	return node, tree.node.handlers[methodNotAllowed], false",'violation:C01.R4')
-add('C01','benign-undo-helper',ND,"			ctx.Delete(child.segment.Name)\n		}\n	}","			name := child.segment.Name\n			ctx.Delete(name)\n		}\n	}",'silent','local alias of the key')
+add('C01','benign-undo-helper',ND,"				ctx.Delete(child.segment.Name)\n			}\n		}\n	}","				name := child.segment.Name\n				ctx.Delete(name)\n			}\n		}\n	}",'silent','local alias of the key')
 add('C01','benign-builder-regexp',SG,'regexp.Compile("(?" + name + seg.rule + ")" + tail)','regexp.Compile("(?" + name + seg.rule + ")" + tail + "")','silent')
 
 # ---------------- C02
@@ -154,7 +154,7 @@ add('C10','old-case-order',RO,"	case len(params) == 0 && !strict:","	case len(pa
 add('C10','continue-on-missing',SY,"		if !found {\n			return fmt.Errorf(\"未找到参数 %s 的值\", seg.Name)\n		}","		if !found {\n			continue\n		}",'violation:C10.R4')
 add('C10','drop-suffix',SY,"		buf.WString(val).WString(seg.Suffix)","		buf.WString(val)",'violation:C10.R4')
 add('C10','domain-only-when-params',RO,"	if r.urlDomain != \"\" {\n		buf.WString(r.urlDomain)\n	}","	if r.urlDomain != \"\" && len(params) > 0 {\n		buf.WString(r.urlDomain)\n	}",'violation:C10.R4')
-add('C10','drop-cleanName-regexp',SG,"	seg.Name = val[start+1 : separator]\n	seg.cleanName()\n	seg.Suffix = val[end+1:]\n	name := \":\"","	seg.Name = val[start+1 : separator]\n	seg.Suffix = val[end+1:]\n	name := \":\"",'violation:C10.R5')
+add('C10','drop-cleanName-regexp',SG,"	seg.Name = val[start+1 : separator]\n	if err := seg.cleanName(); err != nil {\n		return nil, err\n	}\n	seg.Suffix = val[end+1:]\n	name := \":\"","	seg.Name = val[start+1 : separator]\n	seg.Suffix = val[end+1:]\n	name := \":\"",'violation:C10.R5')
 add('C10','benign-if-chain',TR,"		switch s.Type {\n		case syntax.String:\n			buf.WString(s.Value)\n		case syntax.Named, syntax.Regexp, syntax.Interceptor:","		switch {\n		case s.Type == syntax.String:\n			buf.WString(s.Value)\n		case s.Type == syntax.Named || s.Type == syntax.Regexp || s.Type == syntax.Interceptor:",'silent')
 add('C10','benign-default-case',TR,"		case syntax.Named, syntax.Regexp, syntax.Interceptor:\n			param, exists := ps[s.Name]","		default:\n			param, exists := ps[s.Name]",'silent')
 
@@ -329,7 +329,7 @@ add('C10','strict-url-of-interior-node',TR,"	if n == nil || n.size() == 0 {","	i
 
 base=os.path.dirname(os.path.abspath(__file__))
 # ---------------- bug-hunt round: each repaired defect re-introduced
-add('C20','hunt-delete-unguarded',ND,"		if child.segment.Captures() { // 未写入参数的节点不能删除同名的参数，该参数可能来自于 [Matcher]。\n			ctx.Delete(child.segment.Name)\n		}","		ctx.Delete(child.segment.Name)",'violation:C20.R4')
+add('C20','hunt-delete-unguarded',ND,"		if captures { // 未写入参数的节点不能删除同名的参数，该参数可能来自于 [Matcher]。\n			if had {\n				ctx.Set(child.segment.Name, old)\n			} else {\n				ctx.Delete(child.segment.Name)\n			}\n		}","		if had {\n			ctx.Set(child.segment.Name, old)\n		} else {\n			ctx.Delete(child.segment.Name)\n		}",'violation:C20.R4')
 add('C01','hunt-captures-ignores-flag',SG,"func (seg *Segment) Captures() bool { return seg.Type != String && !seg.ignoreName }","func (seg *Segment) Captures() bool { return seg.Type != String }",'violation:C01.R1')
 add('C10','hunt-url-global-table',RO,"		if err := r.interceptors.URL(&buf, pattern, params); err != nil {","		if err := emptyInterceptors.URL(&buf, pattern, params); err != nil {",'violation:C10.R13')
 add('C13','hunt-and-keeps-path',MA,"				r.URL.Path = path\n				restoreParams(ctx, ps)\n				return false","				_ = path\n				restoreParams(ctx, ps)\n				return false",'violation:C13.R10')
@@ -391,6 +391,16 @@ add('C08','r8-benign-writestring-delegates',RO,"func (resp *headResponse) Write(
 add('C11','r8-builders-crossed',GR,"g.methodNotAllowedBuilder, g.optionsBuilder, o...)","g.optionsBuilder, g.methodNotAllowedBuilder, o...)",'violation:C11.R16')
 add('C12','r8-single-header-not-joined',OP,"	if c.allowHeadersString == \"\" && len(c.AllowHeaders) > 0 {","	if c.allowHeadersString == \"\" && len(c.AllowHeaders) > 1 {",'violation:C12.R4')
 add('C03','r8-benign-priority-unchanged',ND,"	ret := int(n.segment.Type) * 10 // 10 可以保证在当前类型的节点进行加权时，不会超过其它节点。","	ret := 10 * int(n.segment.Type) // 10 可以保证在当前类型的节点进行加权时，不会超过其它节点。",'silent')
+
+# ---------------- third hunt: D54-D60 re-introduced
+add('C07','hunt3-newgroup-keeps-callers-slice',GR,"		options:                 slices.Clone(o), // 不能保留调用方的 o，Group.New 每次都会读取该值。","		options:                 o,",'violation:C07.R12')
+add('C16','hunt3-newgroup-keeps-callers-slice',GR,"		options:                 slices.Clone(o), // 不能保留调用方的 o，Group.New 每次都会读取该值。","		options:                 o,",'violation:C16.R11')
+add('C10','hunt3-flag-only-name-accepted',SG,"	if seg.Name == \"\" {\n		return fmt.Errorf(\"无效的语法：%s\", seg.Value)\n	}\n	return nil","	return nil",'violation:C10.R17')
+add('C13','hunt3-abandon-deletes-whatever-was-there',ND,"			if had {\n				ctx.Set(child.segment.Name, old)\n			} else {\n				ctx.Delete(child.segment.Name)\n			}","			_, _ = old, had\n			ctx.Delete(child.segment.Name)",'violation:C13.R15')
+add('C03','hunt3-split-appends-the-head',ND,"	p.children[slices.Index(p.children, n)] = ret\n","	p.children = append(removeNodes(p.children, n.segment.Value), ret)\n",'violation:C03.R18')
+add('C02','hunt3-rule-with-a-brace-accepted',SG,"	if strings.IndexByte(seg.rule, startByte) >= 0 {","	if strings.IndexByte(seg.rule, startByte) >= len(seg.rule) {",'violation:C02.R19')
+add('C03','hunt3-endpoint-by-the-last-byte',SG,"		seg.Endpoint = seg.Suffix == \"\" // 参数之后没有其它内容，/{id}/a} 最后的 } 只是普通字符。\n		seg.matcher = func(string) bool { return true }","		seg.Endpoint = val[len(val)-1] == endByte\n		seg.matcher = func(string) bool { return true }",'violation:C03.R19')
+add('C03','hunt3-benign-endpoint-by-length',SG,"		seg.Endpoint = seg.Suffix == \"\" // 参数之后没有其它内容，/{id}/a} 最后的 } 只是普通字符。\n		seg.matcher = func(string) bool { return true }","		seg.Endpoint = len(seg.Suffix) == 0\n		seg.matcher = func(string) bool { return true }",'silent')
 
 for pid,entries in C.items():
     os.makedirs(os.path.join(base,pid),exist_ok=True)
